@@ -101,6 +101,10 @@ pub fn step<T: Elem>(v: &mut Vector<T>, op: &Value) -> Option<StepOut<T>> {
 }
 fn f2i(x: f64) -> i64 { if x.is_finite() && x == x.trunc() && x.abs() < SAT as f64 { x as i64 } else { BAD } }
 
+fn negzero<T: 'static>(x: &T) -> bool {
+    let z = |a: f64| a == 0.0 && a.is_sign_negative();
+    if let Some(a) = (x as &dyn Any).downcast_ref::<f64>() { z(*a) } else if let Some(c) = (x as &dyn Any).downcast_ref::<Cmplx>() { z(c.real) || z(c.imag) } else { false }
+}
 fn isqrt_exact(s: i64) -> Option<i64> { if s < 0 { return None; } let r = (s as f64).sqrt().round() as i64; for c in [r - 1, r, r + 1] { if c >= 0 && c * c == s { return Some(c); } } None }
 /// integer moduli of a complex vector given by its integer parts, if all of them are integers
 /// (parts above 30 000 are left to the error measurement: the model's 32-bit arithmetic could not square them)
@@ -287,6 +291,22 @@ pub fn run<T: Elem>(case: &Value, out: &mut Out) {
             if let Some(rv) = &so.rv { e["rv"] = jvec(rv, Part::Re); if T::CX { e["rvi"] = jvec(rv, Part::Im); } }
             if let Some(rs) = &so.rs { let p = rs.to_ri(); e["ri"] = json!(p.0); if T::CX { e["rii"] = json!(p.1); } }
             if let Some(ri) = so.ri { e["ri"] = json!(ri); }
+            // sign of zero: dot / sum / sum_slice / norm_1 accumulate from T::zero() = +0.0, so a zero result is +0.0 whatever the
+            // signs of the zero terms (the integer projection cannot show this; floating-point element types only)
+            if matches!(name, "dot" | "sum" | "sum_slice" | "sum_from" | "norm_1") && !so.panic && (T::NAME == "f64" || T::CX) {
+                let mut nz = false;
+                if let Some(rs) = &so.rs { nz = nz || negzero(rs); }
+                if let Some(rsv) = &so.rsv { nz = nz || rsv.iter().any(|x| negzero(x)); }
+                e["negz"] = json!(nz);
+            }
+            // Vec64: the threaded product next to the sequential one (default CPU affinity), same operands, aliased or two-object
+            if name == "dot" { if let Some(w) = down::<T, f64>(&v) {
+                let alias = op.get("alias").and_then(|a| a.as_bool()).unwrap_or(false);
+                let other = if alias { None } else { Some(arg_v::<f64>(op)) };
+                match guarded(|| match &other { None => w.dot_f64(w), Some(o) => w.dot_f64(o) }) {
+                    Ok(r) => { e["pf"] = json!(false); e["rf"] = json!(f2i(r)); e["rfnegz"] = json!(r == 0.0 && r.is_sign_negative()); }
+                    Err(_) => { e["pf"] = json!(true); e["rf"] = json!(BAD); e["rfnegz"] = json!(false); } }
+            } }
             if let Some(rsv) = &so.rsv { e["rs"] = json!(rsv.iter().map(|x| x.to_ri().0).collect::<Vec<i64>>()); if T::CX { e["rsi"] = json!(rsv.iter().map(|x| x.to_ri().1).collect::<Vec<i64>>()); } }
             if so.panic {
                 // a panicking call returns nothing: neutral values keep the event well-formed for the trace specification
@@ -531,7 +551,10 @@ pub fn gen(tier: &str, seed: u64, out: &mut Out) {
         let w: Vec<i64> = x.iter().map(|a| a.signum() * rng.gen_range(1..=9)).collect(); let wi: Vec<i64> = vec![0; n];
         let mut ops = vec![json!({"op": "dot", "alias": true}), json!({"op": "dot", "v": w, "vi": wi}), with_v(json!({"op": "dot"}), &mut rng, cx, n, -9, 9),
                            json!({"op": "add", "alias": true}), json!({"op": "sub", "alias": true}), json!({"op": "add", "alias": true, "adopt": true}),
-                           json!({"op": "dot", "alias": true}), json!({"op": "sub", "alias": true, "adopt": true}), json!({"op": "dot", "alias": true}), json!({"op": "norm_1"})];
+                           json!({"op": "dot", "alias": true}), json!({"op": "sub", "alias": true, "adopt": true}), json!({"op": "dot", "alias": true}), json!({"op": "norm_1"}),
+                           // the empty vector reached through clear() and through resize(0): dot of two empty vectors is 0
+                           json!({"op": "clear"}), json!({"op": "dot", "alias": true}), json!({"op": "dot", "v": [], "vi": []}),
+                           json!({"op": "ones", "n": n, "adopt": true}), json!({"op": "dot", "alias": true}), json!({"op": "resize", "n": 0}), json!({"op": "dot", "alias": true}), json!({"op": "dot", "v": [], "vi": []})];
         if !cx { ops.insert(3, json!({"op": "norm_1"})); }
         let mut c = json!({"ty": ty, "init": x, "ops": ops}); if cx { c["initi"] = json!(xi); }
         push(out, c);
@@ -543,6 +566,9 @@ fn zero_obs(rng: &mut StdRng, ops: &mut Vec<Value>, n: usize, ty: &str, full: bo
     let cx = ty == "cx"; let f64ty = ty == "f64";
     ops.push(json!({"op": "norm_1"})); ops.push(json!({"op": "sum"})); ops.push(json!({"op": "abs"}));
     ops.push(with_v(json!({"op": "dot"}), rng, cx, n, -9, 9));
+    // products of one sign only: 0.0 * negative = -0.0, -0.0 * positive = -0.0, ...; the sum is +0.0 all the same
+    { let (lo, hi) = if rng.gen_bool(0.5) { (-9, -1) } else { (1, 9) }; ops.push(with_v(json!({"op": "dot"}), rng, cx, n, lo, hi)); }
+    { let a = rng.gen_range(0..n); let b = rng.gen_range(a..n); ops.push(json!({"op": "sum_slice", "a": a, "b": b})); }
     if f64ty { ops.push(json!({"op": "norm_2"})); if full { for p in [1, 2, 3, 8] { ops.push(json!({"op": "norm_p", "p": p})); } } else { let p = [1, 2, 3, 8][rng.gen_range(0..4)]; ops.push(json!({"op": "norm_p", "p": p})); } }
     if f64ty || cx { ops.push(json!({"op": "norm_inf"})); }
     if full { let mut o = json!({"op": "find", "x": 0}); if cx { o["xi"] = json!(0); } ops.push(o); ops.push(json!({"op": "sort", "form": "by"})); ops.push(json!({"op": "sum_from", "a": 0})); ops.push(json!({"op": "neg"})); }
@@ -562,6 +588,11 @@ fn zero_case(rng: &mut StdRng, n: usize, ty: &str, push: &mut dyn FnMut(Value)) 
     if !cx { ops.push(withv("add", true)); ops.push(json!({"op": "clear"})); ops.push(json!({"op": "resize", "n": n})); zero_obs(rng, &mut ops, n, ty, false); }   // clear, resize: Default
     ops.push(json!({"op": "zeros", "n": n, "adopt": true})); zero_obs(rng, &mut ops, n, ty, false);                    // Vector::zeros(n)
     ops.push(json!({"op": "new", "n": n, "x": 0, "xi": 0, "adopt": true})); zero_obs(rng, &mut ops, n, ty, false);     // Vector::new(n, 0)
+    // -(0) = -0.0 in every entry; then one non-zero entry among the signed zeros
+    ops.push(json!({"op": "neg", "adopt": true})); zero_obs(rng, &mut ops, n, ty, false);
+    ops.push(json!({"op": "dot", "alias": true})); ops.push(json!({"op": "sum_from", "a": 0}));
+    { let j = rng.gen_range(0..n); let mut o = json!({"op": "set", "i": j, "x": if rng.gen_bool(0.5) { 5 } else { -5 }}); if cx { o["xi"] = json!(0); } ops.push(o); }
+    ops.push(json!({"op": "sum"})); ops.push(json!({"op": "norm_1"})); ops.push(json!({"op": "dot", "alias": true})); ops.push(with_v(json!({"op": "dot"}), rng, cx, n, -9, -1)); ops.push(json!({"op": "sum_from", "a": 0}));
     let mut c = json!({"ty": ty, "init": x, "ops": ops}); if cx { c["initi"] = xi.clone(); }
     push(c);
 }
